@@ -41,12 +41,13 @@ const (
 // record read is attributable to one write; OidTag>0 selects a shared
 // object id instead (RefsFor workloads).
 type RefSpec struct {
-	Name    string `json:"name"`
-	Kind    int    `json:"kind"`
-	Target  string `json:"target,omitempty"`
-	OidTag  int    `json:"oid,omitempty"`
-	PeelTag int    `json:"peel,omitempty"`
-	Off     int    `json:"off,omitempty"` // update index offset inside the transaction's span
+	Name      string `json:"name"`
+	Kind      int    `json:"kind"`
+	Target    string `json:"target,omitempty"`
+	TargetLen int    `json:"target_len,omitempty"` // >0: a long symbolic target of this many bytes
+	OidTag    int    `json:"oid,omitempty"`
+	PeelTag   int    `json:"peel,omitempty"`
+	Off       int    `json:"off,omitempty"` // update index offset inside the transaction's span
 }
 
 // LogSpec is one reflog record of a transaction. Which<0: a new entry at
